@@ -96,6 +96,10 @@ func main() {
 	if *timeout > 0 {
 		opt.TimeoutS = *timeout
 	}
+	if n, err := strconv.Atoi(os.Getenv("GOVC_PARALLEL")); err == nil && n > 0 {
+		// several checks side by side (the self-test corpus): fewer solver processes each
+		opt.Parallel = n
+	}
 
 	if *sweep {
 		runSweep(p, opt)
